@@ -1,6 +1,7 @@
 pub mod adv;
 pub mod laxconv;
 pub mod ops;
+pub mod tf;
 
 pub mod onvec {
     pub use open_hypergraphs::array::vec::{VecArray as Arr, VecKind as K};
